@@ -1234,3 +1234,106 @@ class C13:
 
 
 DRIVERS["C13"] = C13
+
+
+# ---------------------------------------------------------------------------
+# C20: the same program under {compiled, pure} x hash seeds -> identical transcripts
+# (the comparison across interpreters is made by the parent, see runner.run_cross)
+# ---------------------------------------------------------------------------
+class C20:
+    prop = "C20"
+
+    @staticmethod
+    def generate(ctx, run):
+        rc = rng_for(ctx.seed, "C20", run, "cfg")
+        cfg = swarm_config(rc, ctx.tier, weights_over={"load": 3, "refresh": 1})
+        cfg["g_restricted"] = rc.random() < 0.8
+        spec = gen_spec(rng_for(ctx.seed, "C20", run, "spec"), cfg)
+        hg = HistoryGen(rng_for(ctx.seed, "C20", run, "ops"), cfg, spec)
+        ops = hg.history()
+        # epilogue: one or two assignments that make Python raise (the exception type is part of the transcript).
+        # They bypass the model, so they are built so that they cannot close a data-flow cycle: the target is a
+        # location nothing reads, and the expression does not read an epilogue target.
+        re_ = rng_for(ctx.seed, "C20", run, "epilogue")
+        epi = []
+        m = hg.model
+        read = set()
+        for loc in list(m.defs) + list(m.ft_target) + list(m.kn_target):
+            read.update(m.static_reads(loc))
+        free_t = [l for l in spec.leaves if l not in read and l not in m.ft_target and l not in m.kn_target]
+        re_.shuffle(free_t)
+        tgts = free_t[:re_.randint(0, 2)]
+        fl = [l for l in spec.leaves if spec.leaf_type[l] == "f" and l not in tgts]
+        il = [l for l in spec.leaves if spec.leaf_type[l] == "i" and l not in tgts]
+        lists = [p for p, ct in spec.containers.items() if ct == "list" and not any(t[:len(p)] == p for t in tgts)]
+        for tgt in tgts:
+            k = re_.choice(["negshift", "floatshift", "badindex", "roundfloat"])
+            if k == "negshift" and il:
+                epi.append(("raw_sete", tgt, ("bin", "<<", ("ref", re_.choice(il)), ("lit", -1))))
+            elif k == "floatshift" and fl:
+                epi.append(("raw_sete", tgt, ("bin", ">>", ("ref", re_.choice(fl)), ("lit", 1))))
+            elif k == "badindex" and lists and il:
+                lst = re_.choice(lists)
+                epi.append(("raw_sete", tgt, ("bin", "+", ("ref", lst + (("c", re_.choice(il)),)), ("lit", 1000))))
+            elif k == "roundfloat" and fl:
+                epi.append(("raw_sete", tgt, ("bi", "round", ("ref", re_.choice(fl)), (1.5,))))
+        return {"cfg": cfg, "spec": spec.to_json(), "ops": ops, "epilogue": epi}
+
+    @staticmethod
+    def execute(ctx, case):
+        prop = "C20"
+        xd = ctx.xd
+        spec = Spec.from_json(case["spec"])
+        cfg = case["cfg"]
+        ex = Exec(xd, spec, cfg["g_restricted"], cfg["salt"])
+        steps = []
+        nontrivial = False
+
+        def record(tag, exc):
+            w = ex.world
+            try:
+                dump = [list(x) for x in w.mgr.dump()]
+            except Exception as e:
+                dump = "dump raised " + type(e).__name__
+            rec = [tag, None if exc is None else type(exc).__name__,
+                   [[path_str(k), canon(v)] for k, v in w.contents().items()],
+                   O.definitions(w.mgr), dump]
+            steps.append(digest(rec))
+
+        stopped = None
+        for i, op in enumerate(case["ops"]):
+            st = ex.step(op)
+            if st is None:
+                steps.append("skip")
+                continue
+            if isinstance(st.exc, SimStall):
+                raise st.exc
+            if st.info.g_cyclic_trig:
+                # KF-1 territory: the outcome of this update legitimately depends on the schedule; the transcript ends
+                # here (the decision comes from the model, so it is the same in every configuration)
+                ex.count("stopped_at_gcyclic_update")
+                stopped = i
+                break
+            if st.info.trig:
+                nontrivial = True
+            record("op%d:%s" % (i, op[0]), st.exc)
+            if st.exc is not None:
+                ex.count("exceptions_in_transcript")
+        if stopped is None:
+            for j, op in enumerate(case.get("epilogue", ())):
+                _, path, ast = op
+                try:
+                    w = ex.world
+                    tr, exc = run_traced(lambda: w._assign(path, w.build(ast), "item"))
+                except SimStall:
+                    raise
+                if isinstance(exc, SimStall):
+                    raise exc
+                record("epilogue%d" % j, exc)
+                if exc is not None:
+                    ex.count("exceptions_in_transcript")
+        out = _outcome(ex, None, None, nontrivial, {"steps": steps}, digest(steps))
+        return out
+
+
+DRIVERS["C20"] = C20
